@@ -5,7 +5,8 @@ transliterated from go1.24 `path/match.go`: `scanChunk`, `matchChunk`, `getEsc`,
 loop, and `utf8.DecodeRuneInString` for `?` and character classes.
 
 `globMatch pattern name : Option Bool` — `none` is `ErrBadPattern`.
-Loops run on an explicit fuel (pattern length), see `matchFuel`.
+Loops run on an explicit fuel (pattern length + 1, see `matchFuel`); `GlobFuel.lean` proves that
+the result does not depend on the fuel above that budget.
 -/
 import CaddyModel.Util.Hex
 
@@ -82,20 +83,20 @@ def scanChunk (p : Bytes) : Bool × Bytes × Bytes :=
 
 /-! ### getEsc, the class loop, matchChunk -/
 
+/-- `getEsc` after the optional backslash: decode one rune; it must be valid and not the end -/
+def getEscBody (body : Bytes) : Option (Nat × Bytes) :=
+  if body = [] then none
+  else if (decodeRune body).1 = runeError ∧ (decodeRune body).2 = 1 then none
+  else if body.drop (decodeRune body).2 = [] then none
+  else some ((decodeRune body).1, body.drop (decodeRune body).2)
+
 /-- `getEsc`: `none` = ErrBadPattern, else (rune, rest of chunk) -/
 def getEsc (chunk : Bytes) : Option (Nat × Bytes) :=
   match chunk with
   | [] => none
   | c :: ct =>
     if c = cDash ∨ c = cClose then none
-    else
-      let body := if c = cEsc then ct else c :: ct
-      if body = [] then none
-      else
-        let rn := decodeRune body
-        if rn.1 = runeError ∧ rn.2 = 1 then none
-        else if body.drop rn.2 = [] then none
-        else some (rn.1, body.drop rn.2)
+    else getEscBody (if c = cEsc then ct else c :: ct)
 
 /-- the `for { … }` range loop of a character class; returns (rest of chunk, match) -/
 def classLoop : Nat → Bytes → Nat → Bool → Nat → Option (Bytes × Bool)
